@@ -29,23 +29,30 @@ from ref import domdef
 PROPERTY = "C34"
 LEVEL = "model_checking"
 BOUNDS = {"quick": {"targets n": "1..4", "graphs": "all labelled digraphs incl. self-dependencies (2^(n*n))",
-                    "requested": "all non-empty subsets (symbolic), requested list in index order",
-                    "name sets": 1},
+                    "requested": "all non-empty subsets (symbolic for n<=3, one job per subset for n=4), "
+                                 "requested list in index order",
+                    "name sets": 1, "closure/__gt__ harness": "n<=4, graphs acyclic below target 0"},
           "thorough": {"targets n": "1..5", "graphs": "all labelled digraphs incl. self-dependencies (2^(n*n))",
-                       "requested": "all non-empty subsets (symbolic for n<=4, one job per subset for n=5)",
-                       "name sets": "2 for n<=4 (different str-hash iteration orders), 1 for n=5"}}
+                       "requested": "all non-empty subsets (symbolic for n<=3, one job per subset for n=4,5)",
+                       "name sets": "2 for n<=4 (different set-iteration orders of the names), 1 for n=5",
+                       "closure/__gt__ harness": "n<=5, 2 name sets"}}
 OUTSIDE = ["more than 5 targets", "dependencies on undeclared targets (TaskError 'not found', a different rule)",
            "duplicate entries / other orders of the requested-target list than ascending index "
            "(covered only up to relabelling of the graph)",
-           "the empty request / project.default path", "what real tasks do (a recording task is used)"]
+           "the empty request / project.default path", "what real tasks do (a recording task is used)",
+           "macro expansion of task arguments"]
 ASSUMPTIONS = [
     "degenerate symbolic execution: all inputs are booleans (graph edges, requested set); exploration enumerates the "
     "graphs ppci's traversal can distinguish, the solver covers the edges it never inspects",
     "set iteration order of target names is the one of CPython with PYTHONHASHSEED=0 (set by ./check); all labelled "
     "graphs are covered, so other orders are covered up to relabelling only",
-    "Target.dependencies is materialised lazily by a harness subclass of Target (same set contents as "
-    "add_dependency in index order); every other method is ppci's",
-    "loop oracle: cycle in the sub-graph reachable from the requested targets (bounded transitive closure, ref/domdef.py)",
+    "Target.dependencies is supplied by a harness subclass of Target: the set is built when ppci first reads it; "
+    "inside Project.dfs its members are decided one by one in the iteration order of the complete set (names are "
+    "chosen hash-collision free so that this order is independent of the set's contents - checked at run time), "
+    "every other reader gets the complete set; the concrete re-run of every path uses plain eager sets and must "
+    "give the same outcome (encoding validation)",
+    "loop oracle: cycle in the sub-graph reachable from the requested targets (bounded transitive closure, "
+    "ref/domdef.py, validated against DFS colouring on random graphs when written)",
 ]
 SHIMS_USED = ["isinstance"]
 JOB_TIMEOUT = {"quick": 170, "thorough": 1700}
